@@ -15,6 +15,17 @@ pub fn create_module() -> Scope {
         Ok(Value::List(list, Some(sep), bra))
     });
     def!(f, index(list, value), |s| match s.get(name!(list))? {
+        // An argument list is searched like the list of its items.
+        list @ Value::ArgList(..) => {
+            let value = s.get(name!(value))?;
+            let (items, _, _) = get_list(list);
+            for (i, v) in items.iter().enumerate() {
+                if v == &value {
+                    return Ok(Value::scalar(i + 1));
+                }
+            }
+            Ok(Value::Null)
+        }
         Value::List(v, _, _) => {
             let value = s.get(name!(value))?;
             for (i, v) in v.iter().enumerate() {
